@@ -88,6 +88,19 @@ theorem gridPos_length (R C tr tc : Int) (hr : 1 ≤ tr) (hc : 1 ≤ tc) (hR : 1
   have := nTiles_pos C tc hC hc
   rw [max_eq_left (by omega), max_eq_left (by omega)]
 
+/-- the translated z origin of a focal plane (T7e): `(slice_index - 1) · spacing between slices` -/
+theorem tiledFullZOffset_eq (si : Int) (sbs : Rat) : tiledFullZOffset si sbs = .ok (((si - 1 : Int) : Rat) * sbs) := by
+  unfold tiledFullZOffset
+  rfl
+
+/-- closed form of `iter_tiled_full_frame_data` with the translated z origins -/
+theorem iterTiledFull_eq (channels : List (Option Int)) (planes tr tc R C : Int) (g : Geo) (sbs : Rat)
+    (hr : 1 ≤ tr) (hc : 1 ≤ tc) (hR : 1 ≤ R) (hC : 1 ≤ C) :
+    iterTiledFull channels planes tr tc R C g sbs =
+      .ok ((channels.flatMap (fun ch => (iota planes).map (fun p => (ch, p + 1)))).flatMap
+        (iterChunk tr tc R C g (fun si => ((si - 1 : Int) : Rat) * sbs))) :=
+  iterTiledFull_eq_of channels planes tr tc R C g sbs _ (fun si => tiledFullZOffset_eq si sbs) hr hc hR hC
+
 /-- **tile count per channel and focal plane**: `iter_tiled_full_frame_data` yields
 `channels · focal planes · ⌈R / tile rows⌉ · ⌈C / tile columns⌉` frames -/
 theorem iterTiledFull_length (channels : List (Option Int)) (planes tr tc R C : Int) (g : Geo) (sbs : Rat)
